@@ -4,7 +4,8 @@
 //   selector bit 3: opts.flags |= LOAD_KEYS_OPT_ALLOW_OUT_OF_DATE_CERT_PARSE (keeps the verdict on the seeds
 //                   independent of the wall clock; the sample certificates expire in 2027)
 // Buffers are exact-size and NOT NUL terminated, like the const arrays the sample apps pass.
-// Oracle: sanitizers; leak check after matrixSslDeleteKeys.
+// Oracle: sanitizers; leak check after matrixSslDeleteKeys; after a successful load every identity's private key is
+// internally consistent (c09_common.h check_privkey: of the type it claims, complete, keysize = the size of that key).
 #define C09_WORK_BOUND 3000000   /* SHA-1 finalisations per input; see c09_common.h (legit worst case with a sane iteration limit is 3x..6x below) */
 #define C09_HDR 1
 #define C09_PARTS 3
@@ -12,6 +13,7 @@
 #include "asn1_mutator.h"
 extern "C" {
 #include "matrixssl/matrixsslApi.h"
+#include "matrixssl/matrixssllib.h"
 }
 using namespace vf;
 using namespace c09;
@@ -25,19 +27,30 @@ static void prop(Tape &t, Ctx &c) {
     static const int32_t kt[] = { 0, 0, PS_RSA, PS_ECC, PS_ED25519, 0, 0, 0 };
     opts.key_type = kt[sel & 7];
     if (sel & 8) opts.flags |= LOAD_KEYS_OPT_ALLOW_OUT_OF_DATE_CERT_PARSE;
-    int32_t rc;
+    int32_t rc; unsigned nid = 0;
     {
         LeakScope leak("matrixSslLoadKeysMem");
         sslKeys_t *keys = NULL;
         VF_CHECK(matrixSslNewKeys(&keys, NULL) >= 0 && keys, "harness-newkeys", "matrixSslNewKeys failed");
         rc = matrixSslLoadKeysMem(keys, cert.n ? cert.p : NULL, (int32) cert.n, key.n ? key.p : NULL, (int32) key.n,
                                   ca.n ? ca.p : NULL, (int32) ca.n, (sel & 7) ? &opts : NULL);
+        if (rc >= 0) {
+            unsigned n = 0;
+            for (sslIdentity_t *id = keys->identity; id; id = id->next) {
+                VF_CHECK(++n < 1000, "walker-list-cycle", "identity list does not end");
+                if (id->privKey.type == PS_NOKEY) continue;     // no key material given (sslLoadKeyPair)
+                Dig d; walk_pubkey(&id->privKey, d);
+                check_privkey(&id->privKey, 0, "matrixSslLoadKeysMem");
+                nid++;
+            }
+        }
         matrixSslDeleteKeys(keys);
         C09_LEAK_CHECK(leak, "rc=%d", rc);
     }
     bool plausible = (cert.n > 16 && (outer_tlv_ok(cert.p, cert.n) || memmem(cert.p, cert.n, "-----BEGIN", 10))) ||
                      (ca.n > 16 && (outer_tlv_ok(ca.p, ca.n) || memmem(ca.p, ca.n, "-----BEGIN", 10)));
     if (rc >= 0) c.count(fmt("loaded.cert%d.key%d.ca%d", cert.n > 0, key.n > 0, ca.n > 0));
+    if (nid) c.count("loaded.identity-key-checked");
     else if (plausible) c.count("rejected.deep"); else c.count("rejected.shallow");
     if (rc >= 0 || plausible) c.nontrivial(fmt("load:%d:%u:%llx:%llx:%llx", rc, sel & 15, (unsigned long long) tlv_shape(cert.p, cert.n), (unsigned long long) tlv_shape(key.p, key.n), (unsigned long long) tlv_shape(ca.p, ca.n)));
     if (rc >= 0) c.sample(fmt("matrixSslLoadKeysMem certLen=%zu keyLen=%zu caLen=%zu key_type=%d opts=%d rc=%d", cert.n, key.n, ca.n, opts.key_type, (sel & 7) != 0, rc));
